@@ -17,5 +17,17 @@ func init() {
 		Mutant{ID: "C08-buffered-wait-before-conn-close", Prop: "C08", File: "tcp_packet_conn.go",
 			Old: "	err := bc.Conn.Close()\n	// Closing the buffer and the connection unblocks the writer; wait for it so\n	// that no goroutine outlives Close.\n	<-bc.done\n\n	return err", New: "	<-bc.done\n\n	return bc.Conn.Close()",
 			Expect: "R8.2", Note: "Close waits for the writer before closing the connection the writer may be blocked on: the loop hangs in deleteAllCandidates"},
+		Mutant{ID: "C16-raddr-needs-port", Prop: "C16", File: "candidate_base.go",
+			Old: "	if r := c.RelatedAddress(); r != nil && r.Address != \"\" {", New: "	if r := c.RelatedAddress(); r != nil && r.Address != \"\" && r.Port != 0 {",
+			Expect: "R16.4", Note: "the F18 defect re-introduced: hidden related address 0.0.0.0:0 is dropped"},
+		Mutant{ID: "C16-raddr-not-loopback", Prop: "C16", File: "candidate_base.go",
+			Old: "	if r := c.RelatedAddress(); r != nil && r.Address != \"\" {", New: "	if r := c.RelatedAddress(); r != nil && r.Address != \"\" && r.Port < 65536 {",
+			Expect: "R16.4", Note: "another veto on writing the related address"},
+		Mutant{ID: "C16-marshal-drops-priority", Prop: "C16", File: "candidate_base.go",
+			Old: "		c.Priority(),\n		removeZoneIDFromAddress(c.Address()),", New: "		uint32(0),\n		removeZoneIDFromAddress(c.Address()),",
+			Expect: "R16.5", Note: "priority not written"},
+		Mutant{ID: "C16-extensions-skip-empty-value", Prop: "C16", File: "candidate_base.go",
+			Old: "	for i := range exts {\n		if value != \"\" {\n			value += \" \"\n		}\n", New: "	for i := range exts {\n		if exts[i].Value == \"\" {\n			continue\n		}\n		if value != \"\" {\n			value += \" \"\n		}\n",
+			Expect: "R16.5", Note: "extensions with an empty value are dropped"},
 	)
 }
